@@ -23,6 +23,7 @@ namespace vf {
   VF_E bool isnan_##S(T x) { return etl::isnan(x); } \
   VF_E bool isinf_##S(T x) { return etl::isinf(x); } \
   VF_E bool isfinite_##S(T x) { return etl::isfinite(x); } \
+  VF_E T nextafter_##S(T x, T y) { return etl::nextafter(x, y); } \
   VF_E T fmod_##S(T x, T y) { return etl::fmod(x, y); } \
   VF_E T remainder_##S(T x, T y) { return etl::remainder(x, y); } \
   VF_E T fma_##S(T x, T y, T z) { return etl::fma(x, y, z); } \
